@@ -172,6 +172,8 @@ pub fn pick_cfg(rng: &mut Rng, prop: &str, tier_thorough: bool) -> Cfg {
         write_chunk: if rng.chance(1, 3) { rng.range(1, 300) } else { 0 },
         read_chunk: if rng.chance(1, 3) { rng.range(1, 300) } else { 0 },
         eintr_every: if rng.chance(1, 4) { rng.range(1, 9) } else { 0 },
+        hash_xor: 0,
+        contract: None,
     }
 }
 
